@@ -78,7 +78,7 @@ def gen_case(rng):
         G.CONSTS[:] = saved
     for r in g.rules:
         if rng.random() < 0.35:
-            r.params = tuple(rng.sample(['A', 'b', 7], rng.choice([1, 2])))
+            r.params = tuple(rng.sample(['A', 'b', 7, 'Ty::Base', 'N::M::K'], rng.choice([1, 2])))
         if rng.random() < 0.2:
             r.kwparams = (('k', rng.choice([1, 'v'])),)
     return g
